@@ -119,3 +119,24 @@ PROPS["C18"] = dict(
                 "the named provider'."),
     level_note="Trusted: libp2p's envelope protobuf (used to locate fields and to decide semantic identity of a mutant).",
 )
+
+PROPS["C05"] = dict(
+    race=False,
+    shards={"quick": 8, "thorough": 16},
+    level="exploration",
+    design_ref="DESIGN.md §4 C05",
+    technique="runtime monitor: sign/verify oracle over generated ads, single-value and located envelope-byte mutations, exhaustive key-assignment sweep per ad",
+    rule=("sign-verify-mutate: seeded ads (with/without previous link, real or no-entries link, removal flag, 0..4 addresses, 0..3 extended "
+          "providers + main, override on/off) signed by identities of every libp2p key type, signer == provider or a separate publisher; verified "
+          "directly and after dag-json and dag-cbor round trips; then EVERY applicable single-value mutation from the statement's list, two bit "
+          "flips in each of the four fields of EVERY signature envelope (located by parsing the protobuf; semantically identical mutants "
+          "skipped), and removal of the main provider from the list. key-assignment: for seeded ads with 2..3 extended-provider entries, ALL "
+          "assignments of {ad signer, each entry's own key, a stranger} to the entries: valid iff every non-main entry is sealed by the identity "
+          "it names and the main entry by the ad's signer. distinct_nontrivial = distinct (ad shape, signer key type) tuples."),
+    floors={"quick": {"assignments_invalid": 2000, "assignments_valid": 100, "mut_ep-identity": 200, "mut_previous-link-removed": 200, "env_public_key": 1500, "env_signature": 1500, "main_removed": 100}},
+    level_text=("Exploration: real signing and verification over generated advertisements of every shape and key type; every single-value "
+                "mutation the statement lists and located byte flips in every envelope must be rejected; the full assignment space of signing "
+                "keys to extended-provider entries is enumerated per ad."),
+    level_note="Trusted: libp2p's envelope protobuf and key implementations; the harness's notion of 'semantically identical envelope'.",
+    assumptions=["simultaneous changes to neighbouring values are outside the claim and are not generated"],
+)
